@@ -1,7 +1,7 @@
 (* Model of /repo/artifact/image/layerscanning/image/{image.go,layer.go,file_node.go}:
    FromV1Image (initializeChainLayers, addRootDirectoryToChainLayers, the newest-first loop,
    fillChainLayersWithFilesFromTar, populateEmptyDirectoryNodes, fillChainLayersWithFileNode,
-   inWhiteoutDir with its early `return false`, handleDir/handleFile/handleSymlink,
+   inWhiteoutDir, handleDir/handleFile/handleSymlink,
    removeUnnecessaryFileNodes) and the reads FS.Stat / Open+Read / ReadDir / fs.WalkDir.
    The code is modelled as it is, defects included.  No proofs in this file. *)
 From Coq Require Import List NArith ZArith Bool.
@@ -192,13 +192,14 @@ Definition init_slots (im : image) : list (option (list entry)) :=
   else map Some (im_layers im).
 
 (* ------------------------------------------------------------------ inWhiteoutDir *)
-(* climbs the ancestors; the FIRST ancestor without a value ends the search with `false` *)
+(* climbs every ancestor up to the root: a whiteout or a non-directory on the way hides the file;
+   an ancestor without a value is skipped (behaviour since the fix commits 85791d6b, 1c13035d) *)
 Fixpoint in_whiteout_go (t : ftrie) (ancs : list (list seg)) : bool :=
   match ancs with
   | [] => false
   | a :: r => match get_segs a t with
-              | None => false
-              | Some n => if fn_wh n then true else in_whiteout_go t r
+              | None => in_whiteout_go t r
+              | Some n => if fn_wh n || negb (fn_is_dir n) then true else in_whiteout_go t r
               end
   end.
 
@@ -448,6 +449,22 @@ Definition visit_lower (cfg : config) (t : ftrie) (up : reqmap) (m : reqmap) (x 
 Definition removed_keys (m : reqmap) : list str := map fst (filter (fun kv => negb (snd kv)) m).
 Definition subset_str (a b : list str) : bool := forallb (fun x => existsb (str_eqb x) b) a.
 
+(* a second source of order dependence: Remove(p) deletes the whole subtree below p (p nested), so a
+   later Remove(p/x) finds nothing and the real file of p/x is not deleted; in the other order it is *)
+Fixpoint seg_sprefix (a b : list seg) : bool :=
+  match a, b with
+  | [], _ :: _ => true
+  | x :: a', y :: b' => str_eqb x y && seg_sprefix a' b'
+  | _, _ => false
+  end.
+
+Definition removal_overlap (keys : list str) : bool :=
+  existsb (fun k1 => match path_segs k1 with
+                     | Some ((_ :: _ :: _) as p1) =>
+                         existsb (fun k2 => match path_segs k2 with Some p2 => seg_sprefix p1 p2 | None => false end) keys
+                     | _ => false
+                     end) keys.
+
 Definition prune_order_sensitive (cfg : config) (st : state) : bool :=
   match rev (st_chains st) with
   | [] => false
@@ -455,6 +472,7 @@ Definition prune_order_sensitive (cfg : config) (st : state) : bool :=
       let up := fold_left (visit_upper cfg fin) (walk fin) [] in
       let lo := fold_left (visit_lower cfg fin up) (walk fin) [] in
       negb (subset_str (removed_keys up) (removed_keys lo) && subset_str (removed_keys lo) (removed_keys up))
+      || removal_overlap (removed_keys lo)
   end.
 
 (* ------------------------------------------------------------------ FromV1Image *)
